@@ -109,111 +109,153 @@ def timeTriggerNewWith (total : Bool) (u : TUnit) (n : Int) (modulate : Bool) (d
 def timeTriggerNew (u : TUnit) (n : Int) (modulate : Bool) (delay : Nat) : Outcome Err Unit :=
   timeTriggerNewWith timeTriggerTotal u n modulate delay
 
-/-- encoder as the appender sees it: 0 = default pattern (no encoder given, or a pattern encoder
-without pattern), 1 = pattern encoder with a pattern, 2 = json -/
-def encoderClass (enc : Option Typed) : Nat :=
-  match enc with
-  | some (.tagged kind _ body) =>
-    if kind = c!"json" then 2
-    else match body.optField (c!"pattern") with
-      | some _ => 1
-      | none => 0
-  | _ => 0
+/-! ### component descriptions and the environment of the constructors -/
 
+/-- `PatternEncoder::default()` -/
+def defaultPattern : List Char := c!"{d} {l} {t} - {m}{n}"
+
+inductive EncDesc where
+  | pattern (p : List Char)
+  | json
+  deriving Repr, DecidableEq
+
+inductive TrigDesc where
+  | none
+  | size (limit : Nat)
+  | time (u : TUnit) (n : Int) (modulate : Bool) (delay : Nat)
+  | onstartup (minSize : Nat)
+  deriving Repr, DecidableEq
+
+inductive RollDesc where
+  | none
+  | delete
+  | window (pattern : Key) (base count : Nat)
+  deriving Repr, DecidableEq
+
+/-- The component as the `Deserialize` impl builds it — everything the programmatic builders take.
+`kind` 0 console (`append` holds `tty_only`), 1 file, 2 rolling_file. -/
 structure AppenderDesc where
   name : Key
-  kind : Nat            -- 0 console, 1 file, 2 rolling_file
+  kind : Nat
   path : Key
-  append : Bool         -- console: tty_only
+  append : Bool
   stderr : Bool
-  enc : Nat
-  filters : List Nat    -- threshold levels of the surviving filters
-  tiny : Bool := false  -- rolling_file with a size limit below every record: rolls after each write
+  enc : EncDesc
+  filters : List Nat    -- threshold levels of the surviving filters, in order
+  trig : TrigDesc := .none
+  roll : RollDesc := .none
   deriving Repr, DecidableEq
+
+/-- a size limit so small that every record exceeds it (`SizeTrigger`: roll when `len > limit`,
+checked after each write): the active file never keeps a record -/
+def TINY_LIMIT : Nat := 10
+
+def AppenderDesc.tiny (a : AppenderDesc) : Bool :=
+  match a.trig with
+  | .size n => a.kind = 2 && n < TINY_LIMIT
+  | _ => false
+
+/-- The calls that leave log4rs' own configuration code, as explicit outcomes.  Every `panic` of
+loading originates in one of them (`C14_load_panic_sources`); "loading never panics" is a theorem
+relative to `Env.NoPanic`, which is an ASSUMPTION about these components:
+  * `openLog`     `FileAppender::build` / `RollingFileAppenderBuilder::build` (`$ENV` expansion,
+                  `create_dir_all`, open): `io::Result`, mapped to `err`;
+  * `patternNew`  `PatternEncoder::new` (the pattern parser — C11's subject);
+  * `timeNew`     `TimeTrigger::new` (date arithmetic — C16's subject; total since /repo 80d997f). -/
+structure Env where
+  openLog : Key → Outcome Err Unit
+  patternNew : List Char → Outcome Err Unit
+  timeNew : TUnit → Int → Bool → Nat → Outcome Err Unit
+
+def Env.NoPanic (env : Env) : Prop :=
+  (∀ p w, env.openLog p ≠ .panic w) ∧ (∀ s w, env.patternNew s ≠ .panic w)
+  ∧ (∀ u n m d w, env.timeNew u n m d ≠ .panic w)
 
 /-- environment: can a log file be created at this path (the harness uses the empty relative path,
 which is the scratch directory itself, as the path that cannot) -/
 def fsOk (path : Key) : Bool := !path.isEmpty
 
-def constructTrigger : Typed → Outcome Err Unit
+/-- the environment of the check runs: every generated path except the empty one can be opened,
+the pattern parser and (since the repair) the time trigger's constructor always succeed -/
+def realEnv : Env :=
+  { openLog := fun p => if fsOk p then .ok () else .err .badValue
+    patternNew := fun _ => .ok ()
+    timeNew := timeTriggerNew }
+
+def Outcome.andThen {ε α β} (o : Outcome ε α) (f : α → Outcome ε β) : Outcome ε β :=
+  match o with
+  | .ok a => f a
+  | .err e => .err e
+  | .panic w => .panic w
+
+/-- `Deserializers::deserialize::<dyn Encode>` of an `Option<EncoderConfig>`; an absent encoder is
+`PatternEncoder::default()` -/
+def constructEncoder (env : Env) (enc : Option Typed) : Outcome Err EncDesc :=
+  match enc with
+  | some (.tagged kind _ body) =>
+    if kind = c!"json" then .ok .json
+    else
+      let p := (Typed.asStr (body.optField (c!"pattern"))).getD defaultPattern
+      Outcome.andThen (env.patternNew p) (fun _ => .ok (.pattern p))
+  | _ => Outcome.andThen (env.patternNew defaultPattern) (fun _ => .ok (.pattern defaultPattern))
+
+def constructTrigger (env : Env) : Typed → Outcome Err TrigDesc
   | .tagged kind _ body =>
     if kind = c!"time" then
       match body.field (c!"interval") with
       | some (.interval u n) =>
-        timeTriggerNew u n ((Typed.asBool (body.field (c!"modulate"))).getD false)
-          ((Typed.asNat (body.field (c!"max_random_delay"))).getD 0)
-      | _ => .ok ()
-    else .ok ()
-  | _ => .ok ()
+        let m := (Typed.asBool (body.field (c!"modulate"))).getD false
+        let d := (Typed.asNat (body.field (c!"max_random_delay"))).getD 0
+        Outcome.andThen (env.timeNew u n m d) (fun _ => .ok (.time u n m d))
+      | _ => .ok .none
+    else if kind = c!"size" then .ok (.size ((Typed.asNat (body.field (c!"limit"))).getD 0))
+    else .ok (.onstartup ((Typed.asNat (body.field (c!"min_size"))).getD 1))
+  | _ => .ok .none
 
 /-- `FixedWindowRollerBuilder::build`: the pattern must contain `{}`, and (since /repo e76ee7b) the
 last index of the window, `base + count - 1`, must fit `u32` -/
-def constructRoller : Typed → Outcome Err Unit
+def constructRoller : Typed → Outcome Err RollDesc
   | .tagged kind _ body =>
     if kind = c!"fixed_window" then
-      match Typed.asStr (body.field (c!"pattern")) with
-      | some p =>
-        if containsBraces p then
-          let base := (Typed.asNat (body.optField (c!"base"))).getD 0
-          let count := (Typed.asNat (body.field (c!"count"))).getD 0
-          if count > 0 ∧ base + (count - 1) > U32_MAX then .err .badValue else .ok ()
-        else .err .badValue
-      | none => .ok ()
-    else .ok ()
-  | _ => .ok ()
+      let p := (Typed.asStr (body.field (c!"pattern"))).getD []
+      let base := (Typed.asNat (body.optField (c!"base"))).getD 0
+      let count := (Typed.asNat (body.field (c!"count"))).getD 0
+      if !containsBraces p then .err .badValue
+      else if count > 0 ∧ base + (count - 1) > U32_MAX then .err .badValue
+      else .ok (.window p base count)
+    else .ok .delete
+  | _ => .ok .none
 
 /-- `CompoundPolicyDeserializer::deserialize`: trigger first, then roller -/
-def constructPolicy : Typed → Outcome Err Unit
-  | .tagged _ _ body =>
-    match (match body.field (c!"trigger") with
-           | some t => constructTrigger t
-           | none => .ok ()) with
-    | .ok () =>
-      (match body.field (c!"roller") with
-       | some r => constructRoller r
-       | none => .ok ())
-    | o => o
-  | _ => .ok ()
-
-/-- a size limit so small that every record exceeds it (`SizeTrigger`: roll when `len > limit`, checked
-after each write): the active file never keeps a record -/
-def TINY_LIMIT : Nat := 10
-
-def policyTiny : Option Typed → Bool
-  | some (.tagged _ _ pbody) =>
-    match pbody.field (c!"trigger") with
-    | some (.tagged kind _ tb) =>
-      kind = c!"size" && (match tb.field (c!"limit") with
-        | some (.nat n) => n < TINY_LIMIT
-        | _ => false)
-    | _ => false
-  | _ => false
+def constructPolicy (env : Env) : Option Typed → Outcome Err (TrigDesc × RollDesc)
+  | some (.tagged _ _ body) =>
+    Outcome.andThen (match body.field (c!"trigger") with
+                     | some t => constructTrigger env t
+                     | none => .ok .none) (fun td =>
+      Outcome.andThen (match body.field (c!"roller") with
+                       | some r => constructRoller r
+                       | none => .ok .none) (fun rd => .ok (td, rd)))
+  | _ => .ok (.none, .none)
 
 /-- the `Deserialize::deserialize` of the three appender kinds, after typing succeeded -/
-def constructAppender (name : Key) (filters : List Nat) (kind : Key) (body : Typed) :
+def constructAppender (env : Env) (name : Key) (filters : List Nat) (kind : Key) (body : Typed) :
     Outcome Err AppenderDesc :=
-  let enc := encoderClass (body.optField (c!"encoder"))
-  if kind = c!"console" then
-    .ok { name, kind := 0, path := [], filters, enc,
-          append := (Typed.asBool (body.optField (c!"tty_only"))).getD false,
-          stderr := match body.optField (c!"target") with | some (.target b) => b | _ => false }
-  else
-    let path := (Typed.asStr (body.field (c!"path"))).getD []
-    let append := (Typed.asBool (body.optField (c!"append"))).getD true
-    if kind = c!"file" then
-      if fsOk path then .ok { name, kind := 1, path, append, stderr := false, enc, filters }
-      else .err .badValue
+  Outcome.andThen (constructEncoder env (body.optField (c!"encoder"))) (fun enc =>
+    if kind = c!"console" then
+      .ok { name, kind := 0, path := [], filters, enc,
+            append := (Typed.asBool (body.optField (c!"tty_only"))).getD false,
+            stderr := match body.optField (c!"target") with | some (.target b) => b | _ => false }
     else
-      match (match body.field (c!"policy") with
-             | some p => constructPolicy p
-             | none => .ok ()) with
-      | .ok () =>
-        if fsOk path then
-          .ok { name, kind := 2, path, append, stderr := false, enc, filters,
-                tiny := policyTiny (body.field (c!"policy")) }
-        else .err .badValue
-      | .err e => .err e
-      | .panic w => .panic w
+      let path := (Typed.asStr (body.field (c!"path"))).getD []
+      let append := (Typed.asBool (body.optField (c!"append"))).getD true
+      if kind = c!"file" then
+        Outcome.andThen (env.openLog path) (fun _ =>
+          .ok { name, kind := 1, path, append, stderr := false, enc, filters })
+      else
+        Outcome.andThen (constructPolicy env (body.field (c!"policy"))) (fun tr =>
+          Outcome.andThen (env.openLog path) (fun _ =>
+            .ok { name, kind := 2, path, append, stderr := false, enc, filters,
+                  trig := tr.1, roll := tr.2 })))
 
 /-! ### `appenders_lossy` -/
 
@@ -235,7 +277,7 @@ inductive AppenderResult where
 
 /-- one iteration of the loop of `appenders_lossy`: the filter errors of this appender (one per
 broken filter, the appender is KEPT), and the appender or its error -/
-def appenderOutcome (name : Key) (t : Typed) : List LoadErr × AppenderResult :=
+def appenderOutcome (env : Env) (name : Key) (t : Typed) : List LoadErr × AppenderResult :=
   match t with
   | .tagged kind extras body =>
     let fs := Typed.asList (tlookup (c!"filters") extras)
@@ -244,7 +286,7 @@ def appenderOutcome (name : Key) (t : Typed) : List LoadErr × AppenderResult :=
     match body with
     | .failed _ => (ferrs ++ [.appender name], .dropped)
     | _ =>
-      match constructAppender name levels kind body with
+      match constructAppender env name levels kind body with
       | .ok d => (ferrs, .kept d)
       | .err _ => (ferrs ++ [.appender name], .dropped)
       | .panic w => (ferrs, .panic w)
@@ -259,13 +301,13 @@ structure RawLoad where
   errors : List LoadErr
   deriving Repr
 
-def appendersLossy : List (Key × Typed) → Outcome Err (List AppenderDesc × List LoadErr)
+def appendersLossy (env : Env) : List (Key × Typed) → Outcome Err (List AppenderDesc × List LoadErr)
   | [] => .ok ([], [])
   | (name, t) :: rest =>
-    match appenderOutcome name t with
+    match appenderOutcome env name t with
     | (_, .panic w) => .panic w
     | (errs, r) =>
-      match appendersLossy rest with
+      match appendersLossy env rest with
       | .ok (ds, es) =>
         .ok ((match r with | .kept d => d :: ds | _ => ds), errs ++ es)
       | o => o
@@ -276,8 +318,8 @@ def loggerOf (name : Key) (t : Typed) : LoggerCfg :=
     appenders := Typed.strs (Typed.asList (t.field (c!"appenders"))) }
 
 /-- `RawConfig::{refresh_rate, root, loggers, appenders_lossy}` on the typed document -/
-def rawLoad (doc : Typed) : Outcome Err RawLoad :=
-  match appendersLossy (Typed.asDict (doc.field (c!"appenders"))) with
+def rawLoad (env : Env) (doc : Typed) : Outcome Err RawLoad :=
+  match appendersLossy env (Typed.asDict (doc.field (c!"appenders"))) with
   | .ok (ds, es) =>
     let root := (doc.field (c!"root")).getD .nothing
     .ok { refresh := match doc.optField (c!"refresh_rate") with
@@ -291,10 +333,11 @@ def rawLoad (doc : Typed) : Outcome Err RawLoad :=
   | .panic w => .panic w
 
 /-- the lossy pipeline up to the builder input: document error, panic, or `RawLoad` -/
-def loadRaw (seqStructs : Bool) (v : Value) : Outcome Err RawLoad :=
+def loadRaw (env : Env) (seqStructs : Bool) (v : Value) : Outcome Err RawLoad :=
   match interp seqStructs docS v with
+  | .error .panicked => .panic "humantime::parse_duration: overflow in Duration::new"
   | .error e => .err e
-  | .ok doc => rawLoad doc
+  | .ok doc => rawLoad env doc
 
 /-! ### the fragment of `build_lossy` visible in the summary -/
 
@@ -333,8 +376,8 @@ def buildLossyNames (r : RawLoad) : Built :=
     appenders := r.appenders, loadErrors := r.errors, buildErrors := e1 ++ e2 }
 
 /-- `load_config_file` -/
-def loadLossy (seqStructs : Bool) (v : Value) : Outcome Err Built :=
-  match loadRaw seqStructs v with
+def loadLossy (env : Env) (seqStructs : Bool) (v : Value) : Outcome Err Built :=
+  match loadRaw env seqStructs v with
   | .ok r => .ok (buildLossyNames r)
   | .err e => .err e
   | .panic w => .panic w
@@ -348,8 +391,8 @@ inductive StrictResult where
   deriving Repr, DecidableEq
 
 /-- `Format::parse` then `create_raw_config` -/
-def loadStrict (seqStructs : Bool) (v : Value) : StrictResult :=
-  match loadRaw seqStructs v with
+def loadStrict (env : Env) (seqStructs : Bool) (v : Value) : StrictResult :=
+  match loadRaw env seqStructs v with
   | .err _ => .errParse
   | .panic _ => .panic
   | .ok r =>
@@ -357,13 +400,143 @@ def loadStrict (seqStructs : Bool) (v : Value) : StrictResult :=
     else if !(buildLossyNames r).buildErrors.isEmpty then .errBuild
     else .ok
 
+/-! ### `Format::from_path` -/
+
+inductive Format where
+  | yaml | json | toml
+  deriving Repr, DecidableEq
+
+inductive FormatErr where
+  | unsupported      -- `FormatError::UnsupportedFormat(ext)`
+  | unknown          -- `FormatError::UnknownFormat` (no extension)
+  deriving Repr, DecidableEq
+
+/-- `Path::extension` of a file name (no directory part): the text after the last `.`, unless there
+is no `.` or the only `.` is the first character -/
+def extensionOf (fname : List Char) : Option (List Char) :=
+  let r := fname.reverse
+  let extRev := r.takeWhile (· ≠ '.')
+  if extRev.length = r.length then none
+  else if (r.drop (extRev.length + 1)).isEmpty then none
+  else some extRev.reverse
+
+/-- `Format::from_path` with the three format features enabled: the extension is compared
+case-sensitively -/
+def formatOfPath (fname : List Char) : Except FormatErr Format :=
+  match extensionOf fname with
+  | none => .error .unknown
+  | some e =>
+    if e = c!"yaml" ∨ e = c!"yml" then .ok .yaml
+    else if e = c!"json" then .ok .json
+    else if e = c!"toml" then .ok .toml
+    else .error .unsupported
+
+/-! ### what `Format::parse` hands to `RawConfig::deserialize`
+
+The three parsers are assumed to produce the same `Value` for equivalent documents, with these
+modelled exceptions (all exercised by the harness):
+  * TOML has no `null`: a null-valued entry cannot be written and is absent (`dropNulls`);
+  * TOML integers are `i64`: a document with an integer outside that range does not parse;
+  * a TOML document is a table at top level;
+  * TOML rejects duplicate keys anywhere at parse time; in YAML and JSON a duplicated FIELD of the
+    derived structs parsed directly from the document (`RawConfig`, `Root`, `Logger`) is serde's
+    `duplicate field` error (duplicates further inside, which pass through `serde_value`'s
+    `BTreeMap`, are outside the model);
+  * JSON and TOML accept a sequence where a derived struct is expected (`seqStructs`). -/
+
+mutual
+def dropNulls : Value → Value
+  | .seq xs => .seq (dropNullsList xs)
+  | .map kvs => .map (dropNullsEntries kvs)
+  | v => v
+def dropNullsList : List Value → List Value
+  | [] => []
+  | v :: vs => dropNulls v :: dropNullsList vs
+def dropNullsEntries : Entries → Entries
+  | [] => []
+  | (_, .null) :: kvs => dropNullsEntries kvs
+  | (k, v) :: kvs => (k, dropNulls v) :: dropNullsEntries kvs
+end
+
+def hasDup : List Key → Bool
+  | [] => false
+  | k :: ks => ks.contains k || hasDup ks
+
+mutual
+/-- some integer does not fit `i64` -/
+def hasBigInt : Value → Bool
+  | .int n => decide (n > (I64_MAX : Int)) || decide (n < -(I64_MAX : Int) - 1)
+  | .seq xs => hasBigIntList xs
+  | .map kvs => hasBigIntEntries kvs
+  | _ => false
+def hasBigIntList : List Value → Bool
+  | [] => false
+  | v :: vs => hasBigInt v || hasBigIntList vs
+def hasBigIntEntries : Entries → Bool
+  | [] => false
+  | (_, v) :: kvs => hasBigInt v || hasBigIntEntries kvs
+end
+
+mutual
+/-- some map of the document has a duplicated key -/
+def anyDup : Value → Bool
+  | .seq xs => anyDupList xs
+  | .map kvs => hasDup (keys kvs) || anyDupEntries kvs
+  | _ => false
+def anyDupList : List Value → Bool
+  | [] => false
+  | v :: vs => anyDup v || anyDupList vs
+def anyDupEntries : Entries → Bool
+  | [] => false
+  | (_, v) :: kvs => anyDup v || anyDupEntries kvs
+end
+
+def mapDup : Option Value → Bool
+  | some (.map kvs) => hasDup (keys kvs)
+  | _ => false
+
+/-- a duplicated key in the document, root or a logger section -/
+def docLevelDup : Value → Bool
+  | .map kvs =>
+    hasDup (keys kvs) || mapDup (lookup (c!"root") kvs)
+      || (match lookup (c!"loggers") kvs with
+          | some (.map ls) => hasDup (keys ls) || ls.any (fun kv => mapDup (some kv.2))
+          | _ => false)
+      || (match lookup (c!"appenders") kvs with
+          | some (.map as) => hasDup (keys as)
+          | _ => false)
+  | _ => false
+
+/-- `none` = the parser (or the derive's duplicate-field check) rejects the document -/
+def frontEnd (fmt : Format) (v : Value) : Option Value :=
+  match fmt with
+  | .toml => if hasBigInt v || anyDup v || !v.isMap then none else some (dropNulls v)
+  | _ => if docLevelDup v then none else some v
+
+def seqStructsOf : Format → Bool
+  | .yaml => false
+  | _ => true
+
+/-- `load_config_file` on a document of the given format -/
+def loadFile (env : Env) (fmt : Format) (v : Value) : Outcome Err Built :=
+  match frontEnd fmt v with
+  | none => .err .invalidType
+  | some v' => loadLossy env (seqStructsOf fmt) v'
+
+/-- `Format::parse` + `create_raw_config` on a document of the given format -/
+def loadFileStrict (env : Env) (fmt : Format) (v : Value) : StrictResult :=
+  match frontEnd fmt v with
+  | none => .errParse
+  | some v' => loadStrict env (seqStructsOf fmt) v'
+
 /-! ### logical configurations and their documents -/
 
-/-- encoder section as written: is `kind` spelled out, is it json, is a pattern given -/
+/-- encoder section as written: is `kind` spelled out, is it json, which pattern (index into
+`patternTexts`) is given, if any -/
 structure EncL where
   kindExplicit : Bool
   json : Bool
-  pattern : Bool
+  pattern : Option Nat
   deriving Repr, DecidableEq
 
 inductive TrigL where
@@ -409,7 +582,11 @@ structure LogicalConfig where
   appenders : List AppL
   deriving Repr, DecidableEq
 
-def probePattern : List Char := c!"{l} {t} {m}{n}"
+/-- the pattern texts the generator uses: three-token patterns whose last token is the message, so
+that the probe index can be read back from a line whichever is configured -/
+def patternTexts : List (List Char) := [c!"{l} {t} {m}{n}", c!"{t} {l} {m}{n}", c!"{l} [{t}] {m}{n}"]
+
+def patternText (i : Nat) : List Char := patternTexts.getD i (c!"{l} {t} {m}{n}")
 
 def optEntry (k : Key) : Option Value → Entries
   | some v => [(k, v)]
@@ -424,7 +601,7 @@ def renderNames (ns : List Key) : Value := .seq (ns.map .str)
 
 def renderEnc (e : EncL) : Value :=
   .map ((if e.kindExplicit then [(c!"kind", .str (if e.json then c!"json" else c!"pattern"))] else [])
-    ++ (if e.pattern then [(c!"pattern", .str probePattern)] else []))
+    ++ optEntry (c!"pattern") (e.pattern.map (fun i => .str (patternText i))))
 
 def renderTrig : TrigL → Value
   | .size l => .map [(c!"kind", .str (c!"size")), (c!"limit", scalarValue l)]
@@ -449,18 +626,25 @@ def kindName : Nat → Key
   | 1 => c!"file"
   | _ => c!"rolling_file"
 
+def renderFilters (fs : List (List Char)) : Value := .seq (fs.map renderFilter)
+
+def renderPolicy (kindExplicit : Bool) (path : Key) (tr : TrigL) (ro : RollL) : Value :=
+  .map ((if kindExplicit then [(c!"kind", .str (c!"compound"))] else [])
+    ++ [(c!"trigger", renderTrig tr), (c!"roller", renderRoll path ro)])
+
+def renderTarget (b : Bool) : Value := .str (if b then c!"stderr" else c!"stdout")
+
 def renderApp (a : AppL) : Value :=
   .map ([(c!"kind", .str (kindName a.kind))]
-    ++ optEntry (c!"filters") (a.filters.map (fun fs => .seq (fs.map renderFilter)))
+    ++ optEntry (c!"filters") (a.filters.map renderFilters)
     ++ (if a.kind = 0 then
-          optEntry (c!"target") (a.target.map (fun b => .str (if b then c!"stderr" else c!"stdout")))
+          optEntry (c!"target") (a.target.map renderTarget)
           ++ optEntry (c!"tty_only") (a.flag.map .bool)
         else
           [(c!"path", .str a.path)] ++ optEntry (c!"append") (a.flag.map .bool))
     ++ optEntry (c!"encoder") (a.enc.map renderEnc)
     ++ (if a.kind = 0 ∨ a.kind = 1 then [] else
-          [(c!"policy", .map ((if a.policyKind then [(c!"kind", .str (c!"compound"))] else [])
-            ++ [(c!"trigger", renderTrig a.trig), (c!"roller", renderRoll a.path a.roll)]))]))
+          [(c!"policy", renderPolicy a.policyKind a.path a.trig a.roll)]))
 
 def renderLogger (l : LoggerL) : Value :=
   .map ([(c!"level", .str l.level)] ++ optEntry (c!"additive") (l.additive.map .bool)
